@@ -353,3 +353,27 @@ Example C02_mask_width_is_a_model_artefact :
   x_viol (xrun 1 ex_cis [XoCreate 0 (2 ^ 200)%N [] false; XoClearArch (2 ^ 200)%N []]) = 0 /\
   alpha_e ex_cis (XoCreate 0 (2 ^ 200)%N [] false) = false /\ alpha_b ex_cis (XoCreate 0 (2 ^ 200)%N [] false) = true.
 Proof. vm_compute. repeat split. Qed.
+
+(* ---- a builder edit that maps back to the entity's own archetype ---------------------------------------------- *)
+(* EntityManager::updateComponents skips the move when the target archetype is the current one (it used to throw
+   "Moving from archetype ... to itself").  Inside alpha_e (no dependencies, no shared components) an in-contract edit
+   never maps back (ManagerExtBuild.build_mask_changes), so the theorems above never meet that branch; with a
+   dependency it is met by removing a dependent whose master stays: component 0 requires component 1, entity #0 has
+   both; the edit "remove 1" is answered Ok, nothing moves, both values are kept -- and this is what the
+   specification says (removing a dependent is a no-op), also when the same edit assigns a further component. *)
+Definition ex_same_arch_pre : list xop := [XoDep 0 2%N; XoCreate 0 1%N [] false; XoSet 0 0 41%Z; XoSet 0 1 42%Z].
+Example C02_build_same_archetype_is_noop :
+  (forall typed, exists s hs, mrun typed 1 ex_cis ex_same_arch_pre = Ok (s, hs) /\ hs = [(0, 0)%N] /\
+     map am_mask (archs s) = [3%N] /\ map am_ents (archs s) = [[(0, 0)%N]] /\
+     map (fun e => (e_k e, e_comps e)) (abs s hs) = [(0, [(0, Some 41%Z); (1, Some 42%Z)])] /\
+     exists s', step s (OBuild 0 (Some (0, 0)%N) [] [1]) = Ok (s', RNone) /\
+       map am_mask (archs s') = [3%N] /\ map am_ents (archs s') = [[(0, 0)%N]] /\
+       map (fun e => (e_k e, e_comps e)) (abs s' hs) = [(0, [(0, Some 41%Z); (1, Some 42%Z)])]) /\
+  x_viol (xrun 1 ex_cis (ex_same_arch_pre ++ [XoBuild 0 (Some 0) [] [1]])) = 0 /\
+  (forall typed, refines_on typed 1 ex_cis (ex_same_arch_pre ++ [XoBuild 0 (Some 0) [] [1]]) = true) /\
+  (forall typed, refines_on typed 1 ex_cis (ex_same_arch_pre ++ [XoBuild 0 (Some 0) [(2, 5%Z)] [1]]) = true).
+Proof.
+  split; [|split; [vm_compute; reflexivity|split; intros typed; destruct typed; vm_compute; reflexivity]].
+  intros typed. destruct typed; eexists; eexists; (split; [vm_compute; reflexivity|]); repeat (split; [vm_compute; reflexivity|]);
+    eexists; (split; [vm_compute; reflexivity|]); repeat split; vm_compute; reflexivity.
+Qed.
